@@ -44,8 +44,8 @@ def run(ctx: Ctx):
         ci = repo.cls(f"{modname}.{cls}")
         vf = repo.func(f"{modname}.{validator}")
         df = _dense(repo, modname, dense)
-        ctor_validates(ctx, ci, vf)
-        views(ctx, mod, ci, df, prefix)
+        ctx.guarded(ctor_validates, ctx, ci, vf)
+        ctx.guarded(views, ctx, mod, ci, df, prefix)
 
 
 def _dense(repo, modname, dense):
